@@ -54,6 +54,9 @@ class World {
       get (t, key) {
         if (key === Symbol.toPrimitive) return (hint) => { w.ev('coerce', label, hint); return prim === undefined ? label.toUpperCase() : prim }
         const ks = w.keyStr(key)
+        // G7: reading `call` / `apply` of a value about to be invoked is how every hook invokes the original
+        // function (`t.call(recv, …)`); those two reads are not part of the observable interface of a spy
+        if (key === 'call' || key === 'apply') return undefined
         w.ev('get', label, ks)
         if (store.has(key)) return store.get(key)
         if (typeof key === 'symbol') return undefined
